@@ -55,6 +55,7 @@ def campaign_c14(seed, tier):
     # tick-driven timeout through the frame path
     for i in range(12 if tier == "quick" else 300):
         scs.append(sc_schedule("c14-tick-%d" % i, rng.randrange(1 << 30), 80, long_gaps=True))
+    scs += boundary_family("c14", tier)
     for i in range(6 if tier == "quick" else 100):
         scs.append(sc_idle_engine("c14-idle-%d" % i, rng.randrange(1 << 30)))
     for i in range(1 if tier == "quick" else 10):
@@ -292,6 +293,26 @@ def sc_band_ticks(name, seed):
 
 
 # --------------------------------------------------------------------------- C12 (and tick schedules)
+def sc_inactivity_boundary(name, origin, gap):
+    """the 30 s rule at the second boundary: the frame arrives in the last milliseconds of a second, the reply pause
+    of parseFrame carries the clock into the next one, and the tick comes `gap' ms after the frame"""
+    lines = ["CLOCK %d" % origin, "NEW"]
+    f = discover(0, key_mac(1), gen=1, seq=1, stations=[key_mac(9)])
+    lines.append("GLUE %d 0 %s" % (len(f), f.hex()))
+    lines += ["ADV %d" % gap, "TICK", "ADV 100", "TICK", "ADV 900", "TICK", "ADV 1000", "TICK"]
+    lines.append("GLUE %d 0 %s" % (len(f), f.hex()))
+    lines += ["ADV 1000", "TICK"]
+    return Scenario(name, lines)
+
+
+def boundary_family(prefix, tier):
+    scs = []
+    for origin in ((995, 999, 123456991) if tier == "quick" else (990, 991, 995, 998, 999, 1000, 123456991, 4294966995)):
+        for gap in ((28985, 28995, 29990) if tier == "quick" else (28000, 28980, 28985, 28990, 28995, 29000, 29005, 29985, 29990, 29995, 30000, 30010)):
+            scs.append(sc_inactivity_boundary("%s-boundary-%d-%d" % (prefix, origin, gap), origin, gap))
+    return scs
+
+
 def sc_idle_engine(name, seed):
     """The inactivity rule while the mapping engine is idle: sessions recorded through the API (or left over),
     a frame that is not a Discover arms the 30 s timer, then silence: the tick must still empty the table and
@@ -421,6 +442,7 @@ def campaign_c12(seed, tier):
     scs = []
     for i in range(64 if tier == "quick" else 6000):
         scs.append(sc_schedule("c12-sched-%d" % i, rng.randrange(1 << 30), 250, long_gaps=(i % 3 == 0)))
+    scs += boundary_family("c12", tier)
     for i in range(6 if tier == "quick" else 100):
         scs.append(sc_idle_engine("c12-idle-%d" % i, rng.randrange(1 << 30)))
     for i in range(3 if tier == "quick" else 60):
